@@ -22,7 +22,7 @@ use std::rc::Rc;
 use std::str::FromStr;
 use std::sync::{Arc, Mutex};
 
-pub const RULE: &str = "Each run draws from one tape: scenario (independent executor tasks | one task wrapping futures_util::join_all | join_all of 31-36 children | real HttpSymbolSupplier::locate_file over the simulated transport), 1-3 module keys (variants differing in exactly one of code_file / code_id / debug_file / debug_id, sharing leaf names) plus their (debug_file, debug_id) tuple siblings, per key a scripted outcome Ok | NotFound | ParseError | LoadError behind 0-3 gates opened by simulated-clock events, 2-4 tasks x 1-3 lookups (fill_symbol | walk_frame | get_symbol_at_address), executor policy (fifo | lifo | random | pct), spurious-poll probability (0 | 1/16 | 1/4), let-time-pass probability. A run is NON-TRIVIAL iff at least two lookups of the same key overlapped (the second was invoked before the first returned) and at least one context switch between tasks happened. DISTINCT = distinct (world, full decision trace: every poll with its task and result, every event fired) digests among non-trivial runs.";
+pub const RULE: &str = "Each run draws from one tape: scenario (independent executor tasks | one task wrapping futures_util::join_all | join_all of 31-36 children | real HttpSymbolSupplier::locate_file over the simulated transport | real process_minidump on a generated multi-thread dump, whose lookups are issued by the real join_all / FuturesUnordered of real stack walkers, optionally with 1-2 concurrent companion processings on the same symbolizer), 1-3 module keys (variants differing in exactly one of code_file / code_id / debug_file / debug_id, sharing leaf names) plus their (debug_file, debug_id) tuple siblings, per key a scripted outcome Ok | NotFound | ParseError | LoadError behind 0-3 gates opened by simulated-clock events, 2-4 tasks x 1-3 lookups (fill_symbol | walk_frame | get_symbol_at_address), executor policy (fifo | lifo | random | pct), spurious-poll probability (0 | 1/16 | 1/4), let-time-pass probability. A run is NON-TRIVIAL iff at least two lookups of the same key overlapped (the second was invoked before the first returned) and at least one context switch between tasks happened. DISTINCT = distinct (world, full decision trace: every poll with its task and result, every event fired) digests among non-trivial runs.";
 
 type MKey = (String, Option<String>, Option<String>, Option<String>);
 
@@ -249,8 +249,9 @@ fn draw_scripted() -> Scripted {
 }
 
 pub fn run() -> Outcome {
-    let scenario = ch("e2.scenario", 8);
+    let scenario = ch("e2.scenario", 9);
     match scenario {
+        8 => crate::e4_pipeline::run_c12_pipeline(),
         7 => crate::e3_httpcache::run_c12_files(),
         _ => run_scripted(scenario),
     }
